@@ -25,11 +25,11 @@ CHECKS = {
    note="Trusted: virtual time (synctest); reference table in h/c12."),
  "C13": dict(level="exploration", ref="DESIGN.md §3 C13",
    technique="request/reply matching at the tap in virtual time: unique (id, seq, payload) echo requests built by the independent codec, replies decoded and checksum-verified by it",
-   text="One-at-a-time requests (exactly one mirrored reply from the pinged address, none for foreign/unassigned addresses), every payload length 0..MTU over the sweep, IPv4 fragmented requests, IPv6, id/seq strides and boundaries; bursts of 9 (all answered) and 50 (sub-multiset); transmit stall + overflow + address removal.",
+   text="One-at-a-time requests (exactly one mirrored reply from the pinged address, none for foreign/unassigned addresses), every payload length 0..MTU over the sweep, IPv4 fragmented requests, IPv6, id/seq strides and boundaries; bursts of 9 (all answered) and 50 (sub-multiset); 2-4 requests injected by different goroutines at the same instant while the stack's log lines act as pre-emption points (all answered at quiescence); transmit stall + overflow + address removal. The harness link keeps the header views it is handed and reports any that change afterwards.",
    note="Trusted: h/rfc; quiescence before reading the tap (the ICMPv4 replier is a separate goroutine). Odd intermediate view sizes are recorded, not judged (no bundled link produces them)."),
  "C20": dict(level="exploration", ref="DESIGN.md §3 C20",
    technique="end-to-end runtime monitor in virtual time: bundled HTTP/WebSocket client and server over the stack's own TCP on a loop-back harness link; handler arguments and client results compared with what was sent; both TCP byte streams reassembled from the tap and parsed independently (status line, accept key, RFC 6455 frames incl. masked ones from a raw-endpoint client)",
-   text="Hundreds (quick) to tens of thousands of exchanges: GET/HEAD/POST/PUT, registered/unregistered paths, 0-8 headers, bodies to 900 bytes; WebSocket sessions of 1-6 messages around the 125/126/65535/65536 boundaries up to 100 000 (300 000) bytes, unmasked via the bundled client and masked (zero, ones, PRNG keys) via an independent encoder.",
+   text="Hundreds (quick) to tens of thousands of exchanges: GET/HEAD/POST/PUT, registered/unregistered paths, 0-8 headers, bodies to 900 bytes; WebSocket sessions of 1-6 messages around the 125/126/65535/65536 boundaries up to 100 000 (300 000) bytes, unmasked via the bundled client and masked (zero, ones, PRNG keys) via an independent encoder, one message in four of that client unmasked among the masked ones; bursts of 2-6 bundled HTTP clients connecting at the same virtual instant, each must get its own reply.",
    note="Trusted: independent HTTP/RFC 6455 parsing in h/c20. The bundled server's late waiter registration (schedule-dependent) is avoided by a 10 ms virtual pause."),
 
  "C01": dict(level="exploration", ref="DESIGN.md §3 C01",
@@ -63,15 +63,15 @@ CHECKS = {
    note="Trusted: reference table (6-bit set per transport/port), porcupine v1.3.0, logical clock (atomic counter)."),
  "C15": dict(level="exploration", ref="DESIGN.md §3 C15",
    technique="runtime differential monitor against an independent RFC codec (h/rfc): exhaustive per-field sweeps, exhaustive ChecksumCombine, every buffer length, option-sequence enumeration, hostile parser inputs with panic capture",
-   text="Each header encoder/getter is executed for every value of every field up to 16 bits (others PRNG) and compared in both directions with an independent codec; Checksum is compared with a reference RFC 1071 sum for every length and all 2^16 initial values on short buffers; ChecksumCombine is checked on all 2^32 pairs; TCP option parsers are run on every option sequence up to a bound and on hostile bytes, a panic being the observable for an out-of-input read.",
+   text="Each header encoder/getter is executed for every value of every field up to 16 bits (others PRNG) and compared in both directions with an independent codec, also when encoding into a buffer that held another header; Checksum is compared with a reference RFC 1071 sum for every length and all 2^16 initial values on short buffers; ChecksumCombine is checked on all 2^32 pairs; TCP option parsers are run on every option sequence up to a bound and on hostile bytes, a panic being the observable for an out-of-input read.",
    note="Trusted: h/rfc (imports nothing from /repo); Go bounds checking turns out-of-input reads into panics."),
  "C16": dict(level="exploration", ref="DESIGN.md §3 C16",
    technique="runtime reference-model monitor: every operation on View/VectorisedView/Prependable mirrored on a plain []byte, compared after every step; exhaustive small scope + PRNG sequences",
-   text="All chunkings (incl. empty chunks) of short contents and all operation sequences up to a bound over trim/cap/remove-first/clone are enumerated, every live object (original and clones) compared with its reference byte string after every step; long random sequences on large contents; re-extension beyond a cap and Prependable regions checked through cap()/panic.",
+   text="All chunkings (incl. empty chunks, nil and non-nil) of short contents and all operation sequences up to a bound over trim/cap/remove-first/clone are enumerated, every live object (original and clones) compared with its reference byte string after every step; long random sequences on large contents; re-extension beyond a cap and Prependable regions checked through cap()/panic.",
    note="Trusted: the []byte reference in h/c16. View.CapLength beyond the current length is counted, not judged."),
  "C17": dict(level="exploration", ref="DESIGN.md §3 C17",
    technique="runtime monitor: callbacks attributed to the Notify call that ran them; exhaustive sequential enumeration against a reference set; porcupine linearizability check of concurrent histories under the race detector; token-presence invariant for channel entries",
-   text="Every legal register/unregister/notify sequence up to a bound is executed and the callbacks of each Notify compared with the reference set; concurrent histories (2-6 goroutines) are checked by porcupine against the set specification in a -race build; for channel entries a harness lock makes (take token, count) atomic so 'token present or taken since the call' is judged without a clock.",
+   text="Every legal register/unregister/notify sequence up to a bound is executed and the callbacks of each Notify compared with the reference set; concurrent histories (2-6 goroutines) are checked by porcupine against the set specification in a -race build; for channel entries a harness lock makes (take token, count) atomic so 'token present or taken since the call' is judged without a clock; a token delivered before EventUnregister must survive it (also with one channel shared by entries on two queues).",
    note="Trusted: reference set model, porcupine, goroutine-id attribution (callbacks run synchronously on the notifier)."),
  "C18": dict(level="exploration", ref="DESIGN.md §3 C18",
    technique="systematic schedule exploration of the real mutex at verif schedule points (controller runs one goroutine at a time; DFS over decision sequences with replay) + stress under the race detector with injected pre-emption, occupancy monitor, porcupine, state-based lost-wake-up verdict",
